@@ -35,7 +35,26 @@ def col(rng, name, pk=False, prim=False, typ=None, rename=None):
 def gen_spec(rng):
     names = list(NAMES)
     rng.shuffle(names)
-    shape = rng.choice(['flat', 'flat', 'inherit', 'inherit', 'inherit', 'auto'])
+    shape = rng.choice(['flat', 'flat', 'inherit', 'inherit', 'inherit', 'auto', 'mixins', 'mixins'])
+    if shape == 'mixins':
+        # 2-3 abstract mixins, each contributing partition key columns, listed as bases in an order that differs from the
+        # order they were defined in; key types in pairs that accept each other's values (int/bigint, text/ascii)
+        k = rng.choice([2, 2, 3])
+        pairs = [('Integer', 'BigInt'), ('BigInt', 'Integer'), ('Text', 'Ascii'), ('Ascii', 'Text'), ('SmallInt', 'BigInt'), ('Integer', 'VarInt')]
+        pair = list(rng.choice(pairs)) + [rng.choice(M.KEY_TYPES)]
+        mixins = []
+        for i in range(k):
+            m = [col(rng, names[i], pk=True, typ=pair[i] if rng.random() < 0.85 else rng.choice(M.KEY_TYPES))]
+            if rng.random() < 0.3:
+                m.append(col(rng, names[3 + i], prim=True) if rng.random() < 0.5 else col(rng, names[3 + i], typ='Text'))
+            mixins.append(m)
+        def_order = list(range(k))
+        while def_order == list(range(k)) and rng.random() < 0.9:
+            rng.shuffle(def_order)
+        own = [col(rng, names[7], typ='Text')] if rng.random() < 0.6 else []
+        if rng.random() < 0.3:
+            own.append(col(rng, names[6], prim=True))
+        return {'base': None, 'mixins': mixins, 'mixin_def_order': def_order, 'own': own}
     if shape == 'auto':
         own = [col(rng, names[0], prim=True)] + [col(rng, n, typ='Text') for n in names[1:1 + rng.randint(0, 2)]]
         if rng.random() < 0.5:
@@ -72,7 +91,7 @@ def analyse(spec):
     """independent reading of the spec: effective columns, partition key names in table order, clustering names, data names"""
     order, eff = M.final_columns(spec)
     first = {}
-    for d in (spec.get('base') or []) + spec['own']:
+    for d in M.all_defs(spec):
         first.setdefault(d['name'], d)
     any_pk = any(d['pk'] for d in first.values())
     part, clus, data = [], [], []
@@ -170,7 +189,7 @@ def evaluate(spec, op, model=None):
     comps = [M.serialize_key(model, n, fixed[n]) for n in part] if full else []
     too_big = len(comps) > 1 and any(len(c) >= 65536 for c in comps)
     exp = spec_composite(comps) if full and not too_big else None
-    shape = 'inherit' if spec.get('base') else 'flat'
+    shape = 'mixins' if spec.get('mixins') else ('inherit' if spec.get('base') else 'flat')
     if too_big:
         if not res['err']:
             probs.append(('routing.oversized-component-accepted', 'a %d-byte component was packed into a routing key' % max(len(c) for c in comps), 'C38_routing'))
@@ -212,7 +231,7 @@ def zlist(l):
 def g_case(spec, op, res, model):
     order, eff, part, clus, data = analyse(spec)
     defs = '[' + '; '.join('c38_def %d %d %s %s' % (ident(d['name']), ident(d['dbf'] or d['name']), 'true' if d['pk'] else 'false',
-                                                    'true' if d['prim'] else 'false') for d in (spec.get('base') or []) + spec['own']) + ']'
+                                                    'true' if d['prim'] else 'false') for d in M.all_defs(spec)) + ']'
 
     def clause(n, eq, v):
         dbf = eff[n]['dbf'] or n
@@ -275,7 +294,7 @@ def run(ctx):
         items.append((spec, [{'kind': 'select', 'where': [['a', 'eq', ['bytes', ('%02x' % rng.randrange(256)) * ln]], ['b', 'eq', ['int', 5]]]}]))
     ctx.rule = ('generated cqlengine models: flat (1-3 partition keys, clustering, data), abstract base + subclass that overrides inherited key '
                 'columns (flag repeated, possibly another type/db_field) and/or adds partition/clustering/data columns in random declaration '
-                'order, single primary_key (implicit partition key); 30% db_field renames; 18 key-capable column types x up to 3 operations '
+                'order, 2-3 abstract mixins listed as bases in another order than they were defined (int/bigint, text/ascii key pairs), single primary_key (implicit partition key); 30% db_field renames; 18 key-capable column types x up to 3 operations '
                 '(create/save/select/update/delete/instance update/delete, partial-key and IN selects); non-trivial = distinct (model, '
                 'operation) whose partition key is fully fixed')
     ctx.exhaustive = False
@@ -293,7 +312,7 @@ def run(ctx):
             case = {'spec': spec, 'op': op}
             ctx.case(case, nontrivial=res['expected'] is not None, sample={'case': case, 'routing_key': res['stmts'][0]['rk'] if res['stmts'] else None,
                                                                            'index_map': res['index_map'], 'error': res['err']})
-            ctx.count('shape', 'inherit' if spec.get('base') else ('auto' if not any(d['pk'] for d in spec['own']) else 'flat'))
+            ctx.count('shape', 'mixins' if spec.get('mixins') else 'inherit' if spec.get('base') else ('auto' if not any(d['pk'] for d in spec['own']) else 'flat'))
             ctx.count('partition_keys', len(part))
             ctx.count('operation', op['kind'])
             ctx.count('outcome', 'error' if res['err'] else ('routing-key' if res['stmts'] and res['stmts'][0]['rk'] is not None else 'no-routing-key'))
